@@ -32,7 +32,8 @@ type RefResult struct {
 	CancelSeen     bool           // a lambda with Fault == cancel executed
 	// FailPath: when a graph node fails because the graph inside it fails by itself (step limit, no tasks,
 	// merge), the path of the innermost such graph node.
-	FailPath string
+	FailPath  string
+	FailPaths []string // every candidate (same step)
 	// Leftover: some produced value has no consumer (a node without successors ran, END was reached
 	// while other nodes were scheduled too, a value was sent to a skipped node, or nodes that do not
 	// lead to END exist) -- outside the domain of the leak property.
@@ -130,10 +131,16 @@ func evalNode(res *RefResult, n *NodeSpec, path string, in any) (any, string) {
 		sub := Ref(n.Sub, tag+"/", x, RefOpts{})
 		res.absorb(sub)
 		if sub.Fail != "" {
-			res.FailPath = tag
+			fp := tag
 			if sub.FailPath != "" {
-				res.FailPath = sub.FailPath
+				fp = sub.FailPath
 			}
+			if res.FailPath == "" {
+				res.FailPath = fp
+			}
+			// several graph nodes of one step may fail this way: which one the run reports is a matter of timing
+			res.FailPaths = append(res.FailPaths, fp)
+			res.FailPaths = append(res.FailPaths, sub.FailPaths...)
 			return nil, "sub:" + sub.Fail
 		}
 		out = sub.Out
